@@ -239,6 +239,8 @@ def step (c : Cfg) (s : State) (a : Act) : Option State :=
 /-- every fork has ended -/
 def Final (c : Cfg) (s : State) : Prop := ∀ f, f < c.n → (s.forks f).pc = .done
 
+instance (c : Cfg) (s : State) : Decidable (Final c s) := by unfold Final; exact inferInstance
+
 def allKinds : List Kind :=
   [.call, .hget, .acqOk, .acqFail, .pull, .srcEnd, .srcExc, .put, .hset, .rel,
    .nget, .nset, .bacq, .inc, .get, .brel, .recv, .exc, .stop]
